@@ -27,7 +27,7 @@ try:
         names = hs.split(",")
     names = [qual.get(n, n) for n in names]
     cdir = os.path.normpath(os.path.join(srepo, registry.KANI_CRATES[crate]["dir"]))
-    out = kani_run.run_kani(cdir, names, features=feats, jobs=12, timeout=wall, log_path="/tmp/kani_one.log", harness_timeout=ht, exact_ok=all(n in qual.values() for n in names))
+    out = kani_run.run_kani(cdir, names, features=feats, jobs=12, timeout=wall, log_path="/tmp/kani_one.log", harness_timeout=ht, exact_ok=all("::" in n for n in names))
     for k, v in sorted(out["results"].items()):
         print("%-50s %-10s %7.1fs checks=%s %s" % (k.split("::")[-1], v["status"], v["time"], v["checks"], [f["check"][:80] for f in v["failed"][:3]]))
     print("wall %.0fs timed_out=%s compile_error=%s killed=%s" % (out["wall"], out["timed_out"], out["compile_error"], out["killed"]))
